@@ -257,6 +257,19 @@ class DocModel(object):
     else:
       self._auto_remove_set.discard(record)
 
+  def get_auto_removes(self):
+    """
+    Returns the records currently marked for automatic removal, for set_auto_removes().
+    """
+    return set(self._auto_remove_set)
+
+  def set_auto_removes(self, records):
+    """
+    Restores the marks for automatic removal to a value returned by get_auto_removes(). Used when
+    formulas are evaluated without applying their results (e.g. to show a formula error).
+    """
+    self._auto_remove_set = set(records)
+
   def apply_auto_removes(self):
     """
     Remove the records marked for removal.
